@@ -1,4 +1,5 @@
 import Casket.Model.Chain
+import Casket.Model.ChainAddrs
 import Casket.Spec.Chain
 import Casket.Spec.Cond
 import Casket.Spec.Htpasswd
@@ -20,6 +21,11 @@ Streams of C03.
        a `to` token is literal text in which `{path}` is the placeholder
      creds       hex of user:password ("" = no Authorization header)
      cond        (optional twelfth field) hex of conditions as in c02.cond
+     written     (optional 13th field, with cond present) hex of  "<host,host…>|<style>": the addresses of the server
+                 block (each a site configuration of its own) and a number saying HOW the block is written
+                 (harness/streams/c02common.go, st* bits: order of the directive lines, one-line or block form,
+                 quoting …); the style is not part of the meaning, the model does not look at it
+     host        (14th field) the address the request is sent to; the model's answer is the block's for each of them
      out         as c02.serve, plus  U401  and  B TAB <backend number>; HEAD and conditional answers that
                  identify a file: C304 f | C200/CH200 - f d | C206/CH206 - f d a-b | C416 f|- | X f d in-<status>
 -/
@@ -140,11 +146,25 @@ def renderMeta (method : Bytes) : CondResp → String
 
 def noCond : Casket.Cond.Cond := { inm := [], ims := none, range := none, explored := false }
 
-def chainModel (f : List String) : String :=
+/-- the addresses of the block and the one the request goes to (14-field cases) -/
+def addrsOf (f : List String) : Option (List Bytes × Bytes) :=
+  if f.length = 14 then
+    match f[12]?, f[13]? with
+    | some w, some host => (Driver.unhex w).map fun wb => (splitOn 44 (cut 124 wb).1, host.toUTF8.toList)
+    | _, _ => none
+  else none
+
+/-- the site fields of a case: a 14-field case is its first twelve fields at one of the block's addresses -/
+def siteFields (f : List String) : List String := if f.length = 14 then f.take 12 else f
+
+def chainModel (f0 : List String) : String :=
+  let f := siteFields f0
   match parseCase f with
   | none => "bad-case"
   | some c =>
-    let resp := chainServe c.fs c.cs c.req
+    let resp := match addrsOf f0 with
+      | none => chainServe c.fs c.cs c.req
+      | some (addrs, host) => Casket.ChainAddrs.chainServeAt c.fs (Casket.ChainAddrs.configsOf addrs c.cs) host c.req
     let cond := condOf f
     match resp, finalUrl c.fs c.cs c.req with
     | .served (.file ino enc), some u =>
@@ -166,10 +186,14 @@ def metaObs (out : String) : Option Casket.Cond.CondResp :=
     | o => o
   else none
 
-def chainJudge (f : List String) (out : String) : String :=
+def chainJudge (f0 : List String) (out : String) : String :=
+  let f := siteFields f0
   match parseCase f with
   | none => "bad:unparsable:case"
   | some c =>
+    if (match addrsOf f0 with | some (addrs, host) => !addrs.contains host | none => f0.length = 14) then
+      "bad:unparsable:case names no address of the block"
+    else
     match metaObs out with
     | some cobs =>
       let vs := (Casket.CondSpec.mentioned cobs).map fun ino =>
